@@ -57,7 +57,7 @@ def cell_for(draw, col, codec):
     if col == 'MTI':
         return draw(gen_iso.MTI)
     if col.startswith('PDS'):
-        return draw(cell_text(codec, draw(uniform(1, 40))))
+        return draw(cell_text(codec, draw(st.one_of(uniform(1, 40), st.sampled_from([300, 700, 900, 985])))))
     cfg = BIT[col[2:]]
     pt = cfg.get('field_python_type')
     if pt in ('int', 'long'):
@@ -83,7 +83,7 @@ def cell_for(draw, col, codec):
 @st.composite
 def tables(draw, tier):
     codec = draw(st.sampled_from(ENCS))
-    custom = tier == 'thorough' and draw(st.booleans())
+    custom = draw(st.sampled_from([False, False, True])) if tier == 'quick' else draw(st.booleans())
     if custom:
         cols = draw(st.lists(st.sampled_from(INPUT_COLUMNS + EXTRA_COLUMNS), min_size=1, max_size=14, unique=True))
         cols = ['MTI'] + [c for c in cols if c != 'MTI']
@@ -112,6 +112,11 @@ def tables(draw, tier):
                 continue
             if draw(st.floats(0, 1)) < dense:
                 row[c] = draw(cell_for(c, codec))
+        # PDS columns must fit the five carrier elements (sized with the reference packer; construction, not rejection)
+        pds = sorted(k for k in row if k.startswith('PDS'))
+        while pds and len(refcodec.pack_pds([(int(k[3:]), row[k]) for k in pds])) > 5:
+            k = max(pds, key=lambda k: len(row[k]))
+            row[k] = row[k][:len(row[k]) // 2] or 'x'
         rows.append(row)
     blocked = draw(st.booleans())
     return codec, config, in_cols, rows, blocked
